@@ -265,7 +265,39 @@ def run(repo, rep):
                 for t in node.targets:
                     if isinstance(t, ast.Attribute) and t.attr == "value_id":
                         vid.append((m.name, norm(node)))
-    rep.check(all("uuid" in v or ".value_id" in v for _, v in vid) and vid, "C08-g", "ethosu/vela/tensor.py", "value_id is a fresh uuid or copied from another tensor with the same values", str(vid))
+    rep.check(bool(vid), "C08-g", "ethosu/vela/tensor.py", "value_id assignments found", str(len(vid)))
+    # the right-hand side of every value_id assignment: a fresh uuid, another tensor's value_id, or a memoised id whose key determines
+    # the values *and the shape* (the encoder's output depends on the kernel shape: sub-kernel padding, traversal)
+    for m in repo.core_modules():
+        if m.name.startswith("tosa"):
+            continue
+        for q_, f_ in m.functions.items():
+            eq = {}
+            for st_ in sorted((x for x in ast.walk(f_) if isinstance(x, ast.Assign) and len(x.targets) == 1), key=lambda x: x.lineno):
+                tg = str(norm(st_.targets[0]))
+                v_ = st_.value
+                if tg.endswith(".equivalence_id") and isinstance(v_, ast.Call) and (call_name(v_) or "").endswith("create_equivalence_id") and v_.args:
+                    eq[tg[: -len(".equivalence_id")]] = v_.args[0]
+                if not tg.endswith(".value_id"):
+                    continue
+                rhs = str(norm(v_))
+                site_ = f"ethosu/vela/{m.name}.py:{q_}"
+                if "uuid" in rhs or rhs.endswith(".value_id"):
+                    rep.ok("C08-g", site_, f"`{str(norm(st_))[:70]}`", "fresh uuid / copy of another tensor's value id")
+                    continue
+                base = rhs[: -len(".equivalence_id")] if rhs.endswith(".equivalence_id") else None
+                key = eq.get(base) if base else None
+                if key is None:
+                    rep.bad("C08-g", site_, f"`{str(norm(st_))[:70]}` takes the id from a fresh uuid, another tensor or a memo keyed by values and shape", f"right-hand side `{rhs}` not recognised")
+                    continue
+                # rank of the tensor: the shape argument of the create_const_tensor call that made `base`
+                mk = [s2 for s2 in ast.walk(f_) if isinstance(s2, ast.Assign) and str(norm(s2.targets[0])) == base and isinstance(s2.value, ast.Call) and (call_name(s2.value) or "").endswith("create_const_tensor")]
+                shape_arg = mk[-1].value.args[1] if mk and len(mk[-1].value.args) > 1 else None
+                rank1 = isinstance(shape_arg, ast.List) and len(shape_arg.elts) == 1
+                key_has_shape = "shape" in str(norm(key))
+                rep.check(rank1 or key_has_shape, "C08-g", site_, f"`{str(norm(st_))[:60]}`: the memo key `{str(norm(key))[:50]}` determines values and shape",
+                          f"the key is the flattened value sequence of a rank-{len(shape_arg.elts) if isinstance(shape_arg, ast.List) else '?'} tensor: two kernels with equal element count but different shape "
+                          "(3x3 and 1x9 all-ones MEAN kernels) share one id, hence one cache entry, and one of them runs with the stream encoded for the other's shape")
     # a rewrite that changes a weight tensor's values in place must give it a new value_id unconditionally (reader clones of one
     # constant share the id, and the id is the cache key): the refresh sits in the same block as the mutation
     # Generalised: every graph rewrite that replaces the values of an operator's *existing* weight tensor (not one it has just
